@@ -228,6 +228,9 @@ func genDoc(r *RNG, o docOpts) *DocSpec {
 		if r.Chance(1, 5) {
 			n = 0
 		}
+		if r.Chance(1, 40) {
+			n = []int{127, 128, 129, 200, 257}[r.Intn(5)] // large collections (thresholds at which code may switch strategy)
+		}
 		ct := &s.Types[r.Intn(len(s.Types))]
 		d.ColType = ct.Name
 		for i := 0; i < n; i++ {
@@ -248,6 +251,9 @@ func genDoc(r *RNG, o docOpts) *DocSpec {
 	ni := r.Range(0, o.MaxIncluded)
 	if r.Chance(1, 3) {
 		ni = 0
+	}
+	if r.Chance(1, 40) {
+		ni = []int{31, 32, 33, 48, 64, 130}[r.Intn(6)] // many included resources
 	}
 	for i := 0; i < ni; i++ {
 		t := &s.Types[r.Intn(len(s.Types))]
